@@ -53,13 +53,37 @@ let table_sql_case ~tag (t : table) =
   let a = table_args t in
   text ~fn:"TableToSQL" ~tag (x_TableToSQL t) a;
   emit ~fn:"TableToSQL.lex" ~tag ~s:(if table_named t then c_toklist (x_table_tokens t) else "-") ~m:(c_toks ~us:true (lex_all (s_tableToSQL t))) a
+(* Go's encoding/csv Reader turns every CR LF inside a quoted field into LF (one pass, left to right):
+   its records are compared modulo exactly that rewriting of the expected field texts *)
+let crlf_norm (s : string) : string =
+  let n = String.length s in
+  let b = Buffer.create n in
+  let i = ref 0 in
+  while !i < n do
+    if s.[!i] = '\r' && !i + 1 < n && s.[!i + 1] = '\n' then (Buffer.add_char b '\n'; i := !i + 2)
+    else (Buffer.add_char b s.[!i]; incr i)
+  done;
+  Buffer.contents b
+let norm_recs (l : byte list list list) = List.map (List.map (fun f -> bos (crlf_norm (sob f)))) l
+let norm_opt = function None -> None | Some l -> Some (norm_recs l)
+let table_records (t : table) = match t.t_cols with [] -> [] | _ -> x_csv_records t
 let table_csv_case ~tag (t : table) =
   let a = table_args t in
   let out = x_TableToCSV t in
   text ~fn:"TableToCSV" ~tag out a;
   emit ~fn:"TableToCSV.read" ~tag
-    ~s:(match t.t_cols with [] -> c_records [] | _ -> c_records (x_csv_records t))
-    ~m:(c_csvopt (csv_read out)) a
+    ~s:(c_records (table_records t))
+    ~m:(c_csvopt (csv_read out)) a;
+  (* second oracle: Go's own csv.Reader (skips empty lines) on Go's real output; M = the Coq reader
+     that skips empty lines (csv_read_skip) on the model's text *)
+  emit ~fn:"TableToCSV.goread" ~tag
+    ~s:(c_records (norm_recs (table_records t)))
+    ~m:(c_csvopt (norm_opt (csv_read_skip out))) a
+(* the whole database export read by Go's csv.Reader with Comment = '#': the section header lines and
+   the separator lines vanish, what remains is the tables' records one after the other.  Not emitted
+   when a record's first field starts with '#' (such a line is a comment for that reader). *)
+let hash_first (recs : byte list list list) =
+  List.exists (fun r -> match r with (c :: _) :: _ -> c = List.hd (bos "#") | _ -> false) recs
 let db_case ~tag (d : database) =
   let a = db_args d in
   text ~fn:"DatabaseToSQL" ~tag (x_DatabaseToSQL d) a;
@@ -69,6 +93,10 @@ let db_case ~tag (d : database) =
   emit ~fn:"DatabaseToCSV.sections" ~tag
     ~s:(c_headers (List.map (fun t -> sob (x_csv_section_header d.d_name t.t_name)) d.d_tables))
     ~m:(sections (sob out) (List.map (fun t -> sob (x_TableToCSV t)) d.d_tables)) a
+  ;
+  let recs = List.concat_map table_records d.d_tables in
+  if not (hash_first recs) then
+    emit ~fn:"DatabaseToCSV.goread" ~tag ~s:(c_records (norm_recs recs)) ~m:(c_records (norm_recs recs)) a
 let now_t = bos "T"
 let dump_case ~tag (dbs : database list) =
   let a = dump_args dbs in
@@ -285,6 +313,29 @@ let corpus () =
       { d_name = bos "d\\"; d_oid = zi 1; d_tables = [ tbl "t\\" c1 [] 0; tbl "t\r" c1 [] 0 ] } ];
   List.iter (fun dbs -> dump_case ~tag:(Printf.sprintf "d%d" (List.length dbs)) dbs)
     [ []; [ { d_name = bos "postgres"; d_oid = zi 5; d_tables = [] } ]; [ { d_name = bos "a\nb"; d_oid = zi 1; d_tables = [ t0; t2 ] }; { d_name = bos "B"; d_oid = zi 2; d_tables = [ t1 ] } ] ];
+  (* the lone empty field: one column whose rows are NULL / missing / "" / mixed, an empty column name,
+     header only; the same tables inside multi-table databases and dumps *)
+  let lone name rows = tbl "t" [ col name "text" 25 ] (List.map (fun cell -> match cell with None -> [] | Some v -> [ (name, v) ]) rows) (List.length rows) in
+  let lone_tables = List.concat_map (fun name ->
+      [ ("hdr", lone name []); ("null1", lone name [ Some VNil ]); ("null2", lone name [ Some VNil; Some VNil ]);
+        ("missing", lone name [ None; None ]); ("empty", lone name [ Some (vs "") ; Some (vs "") ]); ("emptybytes", lone name [ Some (VBytes []) ]);
+        ("mixed", lone name [ Some (vs "v"); Some VNil; Some (vs ""); None; Some (vs "w"); Some (vs "") ]);
+        ("mixed_last", lone name [ Some VNil; Some (vs "v") ]); ("mixed_first", lone name [ Some (vs "v"); Some VNil ]);
+        ("near", lone name [ Some (vs " "); Some (vs "\n"); Some (vs "\r\n"); Some (vs "\""); Some (vs "\"\""); Some (vs ","); Some (vs "\n\n"); Some (vs "a\n\nb"); Some (vs "#") ]);
+        ("jsonfail", lone name [ Some (VMap [ (bos "k", VF64 (zz (ZA.of_string "0x7ff8000000000000"))) ]); Some (VList [ VF64 (zz (ZA.of_string "0xfff0000000000000")) ]); Some (VList [ vs "ok" ]) ]);
+        ("otherkey", tbl "t" [ col name "text" 25 ] [ [ ("zz", vs "x") ]; [ ("zz", VNil); (name, vs "") ] ] 2) ])
+      [ "c"; ""; "Name" ] in
+  List.iter (fun (k, t) -> table_csv_case ~tag:("lone_" ^ k ^ (if t.t_cols <> [] && (List.hd t.t_cols).c_name = [] then "_noname" else "")) t) lone_tables;
+  table_csv_case ~tag:"two_empty" (tbl "t" [ col "" "text" 25; col "" "text" 25 ] [ []; [ ("", vs "") ] ] 2);
+  table_csv_case ~tag:"two_null" (tbl "t" [ col "a" "text" 25; col "b" "text" 25 ] [ [ ("a", VNil); ("b", VNil) ]; [] ] 2);
+  let lt k = List.assoc k lone_tables in
+  let two = tbl "users" c2 [ r1; r2 ] 2 in
+  List.iter (fun (tag, tables) ->
+      let d = { d_name = bos "db"; d_oid = zi 5; d_tables = tables } in
+      db_case ~tag d; dump_case ~tag [ d; { d_name = bos "e"; d_oid = zi 6; d_tables = List.rev tables } ])
+    [ ("lone_db_1", [ lt "mixed" ]); ("lone_db_2", [ lt "null2"; lt "empty" ]); ("lone_db_mid", [ two; lt "mixed"; two ]);
+      ("lone_db_last", [ two; lt "null1" ]); ("lone_db_first", [ lt "missing"; two ]); ("lone_db_hdr", [ lt "hdr"; lt "hdr"; tbl "z" [] [] 0; lt "null1" ]);
+      ("lone_db_noname", [ lone "" [ Some VNil; Some (vs "") ]; lone "" []; two; lone "" [ Some (vs "x"); None ] ]) ];
   (* reader checks: every fragment alone and every single byte *)
   Array.iter (fun f -> lexcheck ~tag:"frag" f; lexcheck ~tag:"frag_sp" (" " ^ f ^ " x")) sql_frags;
   Array.iter (fun f -> csvcheck ~tag:"frag" f; csvcheck ~tag:"frag2" ("a," ^ f ^ ",b\n")) csv_frags;
@@ -322,7 +373,18 @@ let gen_case r k =
     json_case ~tag:(match List.length m with 0 -> "empty" | 1 -> "k1" | _ -> "kn") m
   | 28 | 29 -> let v = gen_val r 3 in csvvalue_case ~tag:(val_tag v) v
   | 30 | 31 | 32 | 33 -> let t = gen_table r in table_sql_case ~tag:(shape_tag t) t
-  | 34 | 35 | 36 | 37 -> let t = gen_table r in table_csv_case ~tag:(shape_tag t) t
+  | 34 | 35 | 36 -> let t = gen_table r in table_csv_case ~tag:(shape_tag t) t
+  | 37 -> (* one column, many NULL / missing / empty cells; alone or inside a multi-table database *)
+    let name = match rint r 4 with 0 -> "" | 1 -> csv_string r | _ -> gen_name r in
+    let cell () = match rint r 8 with
+      | 0 | 1 -> [] | 2 | 3 -> [ (name, VNil) ] | 4 | 5 -> [ (name, vs "") ] | 6 -> [ (name, vs (csv_string r)) ] | _ -> [ (name, gen_val r 1) ] in
+    let t = tbl (gen_name r) [ col name "text" 25 ] (List.init (rint r 7) (fun _ -> cell ())) 0 in
+    if rbool r then table_csv_case ~tag:"lone" t
+    else begin
+      let others = List.init (rint r 3) (fun _ -> gen_table r) in
+      let tables = if rbool r then t :: others else others @ [ t ] in
+      db_case ~tag:"lone_db" { d_name = bos (gen_name r); d_oid = zi 1; d_tables = tables }
+    end
   | 38 -> (* one column of CSV-hostile strings *)
     let name = csv_string r in
     let t = tbl name [ col name "text" 25; col "n" "int4" 23 ] (List.init (1 + rint r 3) (fun _ -> [ (name, vs (csv_string r)); ("n", vs (csv_string r)) ])) 0 in
